@@ -32,7 +32,8 @@ ALPHABETS = {
         "fk": ["f,1", 'f"2', "f\n3", " f ", "f;|", "f'"],
     },
     "reserved": {
-        "m": ["_default", "_tag_", "t_", "time", "_m", "none", "f_x"],
+        "m": ["_default", "_none", "_tag_", "t_", "time", "_m", "none",
+              "f_x"],
         "tk": ["_tag_", "t_", "_field_", "f_", "t", "f", "_", "", "time",
                "tx", "_t"],
         "tv": ["_tag_a", "t_a", "_field_p", "f_p", "none", "_default",
